@@ -336,7 +336,20 @@ class Case:
     return M.MM(data, self.par() if par is None else par)
 
   def oracle(self):
-    return Oracle(self.frame, self.rows, self.par(), self.M)
+    # the oracle works from a parameter object whose integer-valued floats
+    # are plain ints (what the documented domain means), independently of
+    # what the object under test stores
+    def norm(v):
+      if isinstance(v, float) and v == v and abs(v) != float('inf') and (
+          v == int(v)):
+        return int(v)
+      if isinstance(v, tuple):
+        return tuple(norm(x) for x in v)
+      return v
+    ints = ('n_test', 'n_geos_max', 'n_pretest_max', 'n_designs',
+            'treatment_geos_range', 'control_geos_range')
+    kw = {k: (norm(v) if k in ints else v) for k, v in self.kwargs.items()}
+    return Oracle(self.frame, self.rows, self.M.Par(**kw), self.M)
 
   def describe(self, **extra):
     d = {'spec': self.spec, 'resolved_parameters': self.kwargs,
